@@ -145,9 +145,4 @@ def execute(sc):
 
 
 def known_sig(sc, v):
-    s = e1_known_sig(sc, v)
-    if s:
-        return s
-    if any_shared_pull(sc) and v["oracle"].startswith("order-"):
-        return SHARED
-    return None
+    return e1_known_sig(sc, v)
